@@ -9,7 +9,7 @@ EXPLANATION = ("Static MIR rules: (R04.1) in <EncryptionLayerFailSafeReader as R
                "in the constructor outside the unauthenticated mode edge; (R04.4) the wrong-tag -> Ok(0) arm latches a field of self that "
                "guards later reads, and no path from the Err edge of read_internal that is consistent with the wrong-tag error reaches an Ok(..) result without the latch "
                "store; (R04.5) below the latch, no call site of a function that may return AuthenticatedDecryptionWrongTag (exact calls and fn pointers) lets that "
-               "error reach an Ok(..) result: the failure always arrives at the latch. Decides the structural clauses only; 'prefix of the original' is runtime.")
+               "error reach an Ok(..) result: the failure always arrives at the latch. R04.2 decides what each of the two public mode setters stores on its inlined body (a shared helper taking a constant flag is followed). Decides the structural clauses only; 'prefix of the original' is runtime.")
 TRUSTED = ['rustc MIR', 'clap flag semantics (SetTrue defaults to false)']
 ASSUMPTIONS = ['byte-level prefix relation between authenticated and unauthenticated results is not decided']
 
